@@ -377,7 +377,9 @@ def observe (s : TState) (unknownProbes : List (Axis × Id)) : Observed :=
   { obsIds := s.obs.ids, sampIds := s.samp.ids, shape := (s.nrows, s.ncols),
     indexObs := s.obs.ids.map (idx .obs), indexSamp := s.samp.ids.map (idx .samp),
     existsObs := s.obs.ids.map (existsAcc s .obs), existsSamp := s.samp.ids.map (existsAcc s .samp),
-    probesUnknown := unknownProbes.map (fun (ax, id) => (idx ax id).isNone && !(existsAcc s ax id)),
+    -- a probe that currently is an ID of the axis says nothing; any other probe must be reported unknown
+    probesUnknown := unknownProbes.map (fun (ax, id) =>
+      (s.axis ax).ids.contains id || ((idx ax id).isNone && !(existsAcc s ax id))),
     omdLen := s.obs.md.map (·.length), smdLen := s.samp.md.map (·.length),
     dense := s.rows,
     dataObs := ne <| s.obs.ids.map (fun i => okOr [] (dataAcc s .obs i)),
